@@ -252,7 +252,7 @@ PROPS = {
         "unreached": [
             "trysort::merge (Kani counterexamples did not replay natively: verifier imprecision); of try_sort's driver only the two natural-run loops and `collapse` are under contract (the run reversal, the insertion extension and the merge loop are not)",
             "of the sort / order-statistic natives: the argument evaluation, the collect of the elements and the calls into try_sort / TryHeap themselves (their comparator closures, the already-sorted scan, quickselect's partition and selection loop are under contract); util/try_heap.rs only by the bounded Kani companion (at most 6 elements)",
-            "derived to_str of tuples, optionals, stacks, sets and mappings (the derived to_str of sequences is under contract: \"[\" + the element texts joined by \", \" + \"]\"), eq of sets (written in the xray language; the derived eq of mappings is under contract from the length test on), derived hash of stacks (the hash of sets and the derived hash of mappings are under contract: the XOR of the contributions of the non-empty buckets) (the derived hash of tuples, sequences and optionals is under contract: a function of the LIST of component hashes); of the derived eq / cmp closures the argument evaluation and the downcasts (`to_native!`) before the extracted statements; the compile-time halves of the add_dyn_func factories (overload lookup, arity checks); min / max (delegate to code written in the xray language)",
+            "derived to_str of stacks, sets and mappings (the derived to_str of sequences, tuples and optionals is under contract: brackets + the component texts joined by \", \"; a present optional reads as its element, the absent one as None), eq of sets (written in the xray language; the derived eq of mappings is under contract from the length test on), derived hash of stacks (the hash of sets and the derived hash of mappings are under contract: the XOR of the contributions of the non-empty buckets) (the derived hash of tuples, sequences and optionals is under contract: a function of the LIST of component hashes); of the derived eq / cmp closures the argument evaluation and the downcasts (`to_native!`) before the extracted statements; the compile-time halves of the add_dyn_func factories (overload lookup, arity checks); min / max (delegate to code written in the xray language)",
             "the format-specifier grammar (regex) and the numeric formatting in builtin/{int,floats,str}.rs",
         ],
         "assumptions": ["str::repeat by its documented meaning (assume_specification)",
